@@ -523,4 +523,26 @@ theorem haveSame_iff (a b : List β) : haveSameElements deq dlt a b = true ↔ a
   haveSameElements_iff' a b
 end Sets2
 
+section Sets3
+variable {β : Type} [LinearOrder β]
+
+/-- `containsAll` (repaired): the first vector contains every element of the second -/
+theorem containsAll_iff (a b : List β) : containsAll deq dlt a b = true ↔ ∀ x ∈ b, x ∈ a := containsAll_iff' a b
+
+/-- witness: before the repair an empty first vector was read out of range -/
+theorem containsAllOrig_empty_ub (b : List β) (hb : b ≠ []) : containsAllOrig deq dlt [] b = .error .ub :=
+  containsAllOrig_empty_ub' b hb
+end Sets3
+
+/-! ## entropy of a sample -/
+
+open scoped BigOperators in
+/-- `shannonDiscrete` is `-Σ_x (c_x/n)·ln(c_x/n)/ln base` over the distinct observed values `x`, with
+`c_x` the number of occurrences (the `std::map` of counts is modelled by a sorted association
+list; the theorem shows that it holds exactly the occurrence counts) -/
+theorem shannonDiscrete_spec (v : List ℝ) (base : ℝ) :
+    shannonDiscrete v base =
+      - ∑ k ∈ v.toFinset, ((v.count k : ℝ) / v.length) * Real.log ((v.count k : ℝ) / v.length) / Real.log base :=
+  shannonDiscrete_eq v base
+
 end Bpp.C07
